@@ -263,6 +263,13 @@ func (e *Enc) instrEffect(in ssa.Instruction, ef *effect) {
 			if fld := pureFieldOf(c.Value); fld != "" && e.db.pureFields[fld] {
 				return
 			}
+			if pn := callbackName(c.Value); pn != "" {
+				for owner := in.Parent(); owner != nil; owner = owner.Parent() {
+					if oc := e.db.byFunc[fname(owner)]; oc != nil && oc.PureCallbacks[pn] {
+						return
+					}
+				}
+			}
 			if callbackName(c.Value) != "" {
 				// `pure` means pure up to the function's own callbacks
 				owner := in.Parent()
